@@ -116,3 +116,20 @@ pub fn replay(cfg: &Cfg, plan: &[Step], record: bool) -> RunOut {
     let mut src = Recorded { plan, at: 0 };
     run(cfg, &mut src, plan.len() + 1, record)
 }
+
+/// A source that writes every step to a journal (flushed) before handing it out, so the
+/// plan survives the death of the process.
+pub struct Journal<'a> {
+    pub inner: &'a mut dyn Source,
+    pub file: std::fs::File,
+}
+
+impl Source for Journal<'_> {
+    fn next(&mut self, view: &View) -> Option<Step> {
+        use std::io::Write;
+        let s = self.inner.next(view)?;
+        let _ = writeln!(self.file, "{}", serde_json::to_string(&s).unwrap());
+        let _ = self.file.flush();
+        Some(s)
+    }
+}
